@@ -35,3 +35,7 @@ package timemath
 //@   ensures perm: permutation(ds, old(ds))
 //@   ensures trimmed: ds[(len(ds)-1)/3] <= result && result <= ds[len(ds)-1-(len(ds)-1)/3]
 //@   ensures mid: mathint(result) == mathint(ds[(len(ds)-1)/3]) + (mathint(ds[len(ds)-1-(len(ds)-1)/3])-mathint(ds[(len(ds)-1)/3]))/2
+
+//@ func Duration
+//@   inline
+//@   requires -9223372036.0 <= seconds && seconds <= 9223372036.0
